@@ -123,6 +123,26 @@ def run_case(rng, tier, idx):
             if float((np.abs(Agam - Kg_sk) / scg).max()) <= 1e-9:
                 mech = 'kA-gamma-part-skew-symmetrised'
         c.judge('curvature part is symmetric', asym, 1e-10, mechanism=mech)
+    # the same panel placed inside a larger matrix (as assemblies do): the block moves to (row0, col0), nothing else appears
+    if rng.random() < 0.5:
+        c.tag('clause:placed')
+        r0 = num * int(rng.integers(1, 9)); tail = num * int(rng.integers(0, 5))
+        big = r0 + size + tail
+        p.beta = beta; p.gamma = gamma if gamma else None
+        try:
+            Ap = p.calc_kA(size=big, row0=r0, col0=r0, silent=True).toarray()
+            blk = Ap[r0:r0 + size, r0:r0 + size]
+            rest = Ap.copy(); rest[r0:r0 + size, r0:r0 + size] = 0.0
+            c.expect('placed kA: the panel block equals the stand-alone matrix', np.array_equal(blk, A), 'row0=%d' % r0)
+            c.expect('placed kA: zero outside the panel block', not rest.any(), 'max outside %r' % float(np.abs(rest).max()))
+            p.calc_cA(aeromu, size=big, row0=r0, col0=r0, silent=True)
+            Cp = p.cA.toarray()
+            p.calc_cA(aeromu, silent=True)
+            C0 = p.cA.toarray()
+            restc = Cp.copy(); restc[r0:r0 + size, r0:r0 + size] = 0.0
+            c.expect('placed cA: block equals the stand-alone matrix and nothing lies outside', np.array_equal(Cp[r0:r0 + size, r0:r0 + size], C0) and not restc.any())
+        except Exception as e:
+            c.info['placed_rejected'] = '%s: %s' % (type(e).__name__, str(e)[:80])
     # linearity in beta and gamma: two more executions
     s1, s2 = float(rng.uniform(-3, 3)), float(rng.uniform(-3, 3))
     p.beta = beta * s1; p.gamma = None
